@@ -139,6 +139,7 @@ impl State {
 //@use coll.fns ::slice_vec
 //@use coll.fns ::core_word_slice
 //@use coll.fns ::core_word_unbox
+//@use coll.fns ::collect_tag_map
 //@use coll.fns ::core_word_counter_i
 //@use coll.fns ::core_word_counter_j
 //@use coll.fns ::core_word_counter_k
